@@ -16,6 +16,9 @@ for rnd, tagc in (("3", "b"), ("5", "c"), ("6", "d")):
         pid = re.search(r"out\d_(C\d\d)", d).group(1)
         i = re.search(r"change_(\d+)", d).group(1)
         items.setdefault(f"{pid}-{tagc}{i}", d)
+if not os.path.isdir(WT):
+    # the scratch worktree of /repo the patches are applied to (removed again with `git -C /repo worktree remove --force`)
+    subprocess.run(f"git -C /repo worktree add --detach {WT} HEAD -f", shell=True, check=True, capture_output=True)
 fa_total = und_total = 0
 for name, diff in sorted(items.items()):
     if not pat.search(name):
